@@ -9,6 +9,7 @@ import copy
 import os
 import random
 import tempfile
+import time
 
 from ..common import NAN, NINF, PINF, Verdict, fx, get_pool, pool_map, use_repo
 from ..obs import tlc_obs
@@ -181,6 +182,7 @@ def run(tier, seed, replay=None):
     v = Verdict("C32", tier, seed, "exploration")
     use_repo()
     rng = random.Random(seed)
+    phases, t0 = {}, time.time()
     if replay:
         rc = replay["case"]
         todo = [{"cfg": rc["cfg"], "ops": list(rc["ops"]), "cache": rc["cache"], "jit": rc["jit"]}]
@@ -195,7 +197,7 @@ def run(tier, seed, replay=None):
                              ('Interp = {"linear", "quadratic", "cubic", "previous", "pchip"}',
                               'Interp = {"linear", "slinear", "quadratic", "cubic", "nearest", "previous", "next", "zero", "pchip"}'),
                              ('Conts = {"list", "array"}', 'Conts = {"list", "array", "points"}'),
-                             ("MaxSer = 1", "MaxSer = 2"), ("SerMaxN = 3", "SerMaxN = 2")):
+                             ("MaxSer = 1", "MaxSer = 2")):
                     if a not in cfg:
                         raise MachineryError("Curve.cfg: cannot find %r" % a)
                     cfg = cfg.replace(a, b)
@@ -210,11 +212,13 @@ def run(tier, seed, replay=None):
             c = jsonable({"cfg": s["cfg"], "ops": s["ops"], "cache": s["cache"]})
             c["jit"] = dict(NOMINAL)
             todo.append(c)
-            if tier == "thorough":
+            if tier == "thorough" and not c["ops"] and rng.random() < 0.34:     # seeded replicas with other units / offsets
                 d = dict(c)
                 d["jit"] = jitter(rng, c["cfg"])
                 todo.append(d)
         states, trans = r.distinct, r.transitions
+    phases["tlc_model_s"] = round(time.time() - t0, 1)
+    t0 = time.time()
     groups = {}
     for c in todo:
         groups.setdefault(tuple(c["ops"]), []).append(c)
@@ -225,7 +229,10 @@ def run(tier, seed, replay=None):
     if len(items) > 8:
         get_pool(16)
     cases = [c for part in pool_map(observe_group, items, chunksize=1) for c in part]
+    phases["implementation_s"] = round(time.time() - t0, 1)
+    t0 = time.time()
     fails, st = tlc_obs("CurveObs", "CurveObs.cfg", cases)
+    phases["tlc_obs_s"] = round(time.time() - t0, 1)
     for name, i in fails:
         c = cases[i]
         if name.startswith("Obs_"):
@@ -255,7 +262,7 @@ def run(tier, seed, replay=None):
         "rule": "every state of Curve.tla (class x interpolation kind x fill option x container x data shape "
                 "[x1, dx in DXSet^(n-1), dy in {-1,0,1}^(n-1)] x history of {call, serialisation routes}) is built on the "
                 "real classes and evaluated at n support points, 3 interior quarter points per interval and one point on "
-                "each side of the range; thorough adds one replica per state with seeded units/offsets; non-trivial = "
+                "each side of the range; thorough adds a replica with seeded units/offsets for a seeded third of the history-free states; non-trivial = "
                 "evaluated successfully and (>= 3 support points or at least one serialisation in the history)",
         "completed": sum(1 for c in cases if done(c)),
         "unsupported_raised_at_evaluation": sum(1 for c in cases if c["raised"]),
@@ -263,6 +270,7 @@ def run(tier, seed, replay=None):
         "with_cached_interpolator_carried": sum(1 for c in cases if done(c) and c["cache_obs"]),
         "nan_values_compared": sum(1 for c in cases for x in c["ev"] if x == NAN and done(c)),
         "values_checked": sum(len(c["ev"]) * 2 for c in cases if done(c)),
+        "phase_wall_s": phases,
         "samples": [cases[k] for k in sorted({len(cases) // 7, len(cases) // 2, len(cases) - 1})][:3],
     }
     v.assumptions = [
